@@ -30,6 +30,8 @@ type raceSummary struct {
 	FinalProblems []string       `json:"final_state_problems"`
 	LimitRounds   int            `json:"limit_rounds"`
 	LimitOverruns []string       `json:"limit_overruns"`
+	MapCycles     int            `json:"map_cycles"`
+	MapProblems   []string       `json:"map_problems"`
 	DriverCalls   map[string]int `json:"driver_calls"`
 	Note          string         `json:"note"`
 }
@@ -57,7 +59,7 @@ func cmdRace(args []string) {
 			{Heap: 0, Flags: simvk.PropDeviceLocal | simvk.PropHostVisible | simvk.PropHostCoherent},
 		},
 		Granularity: 64, AtomSize: 64, MaxAllocCount: 1 << 20,
-		Log: false, TableSize: 1 << 22,
+		Log: false, TableSize: 1 << 22, Yield: true,
 	}
 	dev := simvk.NewDevice(cfg)
 	drv := simvk.NewDriver(dev)
@@ -364,6 +366,7 @@ func cmdRace(args []string) {
 		}()
 	}
 	raceLimits(sum, *dur/3)
+	raceMaps(sum, *dur/3)
 	for _, v := range dev.TakeViolations() {
 		sum.Violations[v.Code]++
 	}
@@ -447,6 +450,96 @@ func raceLimits(sum *raceSummary, dur time.Duration) {
 				_ = slots[i].Free()
 			}
 		}
+	}
+	_ = alloc.Destroy()
+}
+
+// raceMaps: many goroutines map and unmap DISTINCT allocations that share blocks, with allocation/free traffic that
+// keeps the mapping hysteresis off, so that blocks go from one map reference to none and back all the time.  In every
+// sequential order the driver sees vkMapMemory / vkUnmapMemory on a memory object strictly alternate; the simulated
+// device reports a map of mapped memory, an unmap of unmapped memory, and the final reference counts must be zero.
+func raceMaps(sum *raceSummary, dur time.Duration) {
+	cfg := simvk.Config{
+		API:         10,
+		Heaps:       []simvk.HeapCfg{{Size: 64 << 20}},
+		Types:       []simvk.TypeCfg{{Heap: 0, Flags: simvk.PropHostVisible | simvk.PropHostCoherent}},
+		Granularity: 1, AtomSize: 1, MaxAllocCount: 1 << 20, Log: false, TableSize: 1 << 18, Yield: true,
+	}
+	dev := simvk.NewDevice(cfg)
+	drv := simvk.NewDriver(dev)
+	alloc, err := vam.New(discardLogger, drv.Driver, drv.PhysicalDevice, vam.CreateOptions{})
+	if err != nil {
+		sum.MapProblems = append(sum.MapProblems, "vam.New: "+err.Error())
+		return
+	}
+	const pools, perPool = 4, 3
+	var ps []*vam.Pool
+	for i := 0; i < pools; i++ {
+		p, _, err := alloc.CreatePool(vam.PoolCreateInfo{MemoryTypeIndex: 0, BlockSize: 64 * kib})
+		if err != nil {
+			sum.MapProblems = append(sum.MapProblems, "CreatePool: "+err.Error())
+			return
+		}
+		ps = append(ps, p)
+	}
+	var cycles, bad atomic.Int64
+	stop := make(chan struct{})
+	var wg sync.WaitGroup
+	for w := 0; w < pools*perPool; w++ {
+		wg.Add(1)
+		go func(w int) {
+			defer wg.Done()
+			defer func() {
+				if p := recover(); p != nil {
+					bad.Add(1)
+				}
+			}()
+			pool := ps[w%pools]
+			mr := core1_0.MemoryRequirements{Size: 256, Alignment: 16, MemoryTypeBits: 1}
+			for {
+				select {
+				case <-stop:
+					return
+				default:
+				}
+				var a, b vam.Allocation
+				if _, err := alloc.AllocateMemory(&mr, vam.AllocationCreateInfo{Pool: pool}, &a); err != nil {
+					continue
+				}
+				if _, err := alloc.AllocateMemory(&mr, vam.AllocationCreateInfo{Pool: pool}, &b); err != nil {
+					_ = a.Free()
+					continue
+				}
+				if p, _, err := a.Map(); err == nil && p != nil {
+					bs := unsafe.Slice((*byte)(p), 16)
+					for k := range bs {
+						bs[k] = byte(w)
+					}
+					_ = a.Unmap()
+				}
+				_ = a.Free()
+				_ = b.Free()
+				cycles.Add(1)
+			}
+		}(w)
+	}
+	time.Sleep(dur)
+	close(stop)
+	wg.Wait()
+	sum.MapCycles = int(cycles.Load())
+	if n := bad.Load(); n > 0 {
+		sum.MapProblems = append(sum.MapProblems, fmt.Sprintf("%d workers panicked", n))
+	}
+	for _, v := range dev.TakeViolations() {
+		if len(sum.MapProblems) < 4 {
+			sum.MapProblems = append(sum.MapProblems, "driver: "+v.String())
+		}
+	}
+	if n := dev.MappedCount(); n != 0 {
+		sum.MapProblems = append(sum.MapProblems, fmt.Sprintf("%d memory objects are still mapped after every user unmapped", n))
+	}
+	for _, p := range ps {
+		_ = p.Destroy()
 	}
 	_ = alloc.Destroy()
 }
